@@ -1,7 +1,7 @@
 #!/bin/sh
 # (re)generate _CoqProject and Makefile.coq from the .v files present
 cd "$(dirname "$0")"
-{ echo "-Q . NF"; echo "-arg -w -arg -notation-overridden,-ambiguous-paths,-redundant-canonical-projection,-deprecated-hint-without-locality,-deprecated-instance-without-locality,-undeclared-scope";
+{ echo "-Q . NF"; echo "-arg -w -arg -notation-overridden,-ambiguous-paths,-redundant-canonical-projection,-deprecated-hint-without-locality,-deprecated-instance-without-locality,-undeclared-scope,-extraction-reserved-identifier";
   find Base Model Gen Proofs Properties Extract -name '*.v' | sort; } > _CoqProject.new
 if ! cmp -s _CoqProject.new _CoqProject; then mv _CoqProject.new _CoqProject; coq_makefile -f _CoqProject -o Makefile.coq >/dev/null; else rm _CoqProject.new; fi
 [ -f Makefile.coq ] || coq_makefile -f _CoqProject -o Makefile.coq >/dev/null
